@@ -95,7 +95,11 @@ func (s *Scheduler) Step(ctx context.Context) StepState {
 			return StateNextTask(def.Task{}, err)
 		}
 		nextScheduled, ok := s.repo.NextScheduled()
-		if !ok || !nextScheduled.Equal(next.ScheduledAt) {
+		if !ok || !nextScheduled.Equal(next.ScheduledAt) || next.ScheduledAt.After(s.clock.Now()) {
+			// The fire just consumed does not belong to a due next task
+			// (the schedule was stopped or edited in the meantime).
+			// Record it so that the next Step restarts the timer: nothing else would re-arm it.
+			s.setGetNextResult(def.Task{}, ErrScheduleStoppedOrChanged)
 			return StateNextTask(def.Task{}, ErrScheduleStoppedOrChanged)
 		}
 		s.setGetNextResult(next, nil)
